@@ -50,6 +50,19 @@ fn is_too_many(e: &SeliumError) -> bool {
 struct Outage {
     fails: u32,
     code: u32,
+    backoff: String,
+}
+
+impl Outage {
+    /// the configured delay before attempt `n` (numbered from 1) of an outage
+    fn delay_of(&self, n: u32) -> Duration {
+        let k = match self.backoff.as_str() {
+            "linear" => n as u64,
+            "exponential" => 1u64 << (n - 1).min(20),
+            _ => 1,
+        };
+        Duration::from_millis(STEP_MS * k)
+    }
 }
 
 enum Served {
@@ -64,16 +77,26 @@ enum Served {
 async fn serve<T>(fake: &mut FakeServer, orig: &Frame, o: &Outage, op: &mut JoinHandle<T>) -> (Served, Option<T>) {
     let mut attempts = 0u32;
     let mut rejected: Vec<Incoming> = Vec::new();
+    let mut last_answer: Option<std::time::Instant> = None;
     loop {
         tokio::select! {
             inc = fake.incoming.recv() => {
                 let mut inc = match inc { Some(i) => i, None => return (Served::GaveUp(attempts), None) };
                 attempts += 1;
+                if let Some(t) = last_answer {
+                    // attempt number `attempts` must have waited for its backoff delay after the previous failure
+                    let gap = t.elapsed();
+                    let want = o.delay_of(attempts);
+                    if gap + Duration::from_millis(1) < want {
+                        return (Served::Mismatch(format!("re-registration attempt {attempts} arrived {gap:?} after the previous failure; the configured backoff asks for at least {want:?}")), None);
+                    }
+                }
                 if &inc.first != orig {
                     return (Served::Mismatch(format!("re-registration frame {:?} differs from the original {:?}", inc.first, orig)), None);
                 }
                 if attempts <= o.fails {
                     let _ = inc.stream.send(Frame::Error(ErrorPayload { code: o.code, message: "scripted failure".into() })).await;
+                    last_answer = Some(std::time::Instant::now());
                     rejected.push(inc);
                 } else {
                     let _ = inc.stream.send(Frame::Ok).await;
@@ -114,7 +137,8 @@ struct Params {
     kind: String,
     pre: usize,
     outages: usize,
-    fails: u32,
+    /// scripted failing attempts per outage
+    fails: Vec<u32>,
     fatal: bool,
     backoff: String,
     max: u32,
@@ -149,9 +173,10 @@ macro_rules! first_registration {
 
 /// shared tail of an outage: interpret what the fake server saw
 fn judge(served: &Served, p: &Params, j: usize, class: &str) -> Result<(), Fail> {
-    let expect_attempts = if p.fatal { 1 } else if p.fails < p.max { p.fails + 1 } else { p.max };
+    let fails = p.fails[j - 1];
+    let expect_attempts = if p.fatal { 1 } else if fails < p.max { fails + 1 } else { p.max };
     match served {
-        Served::Mismatch(m) => Err(fail("re-registration-differs", class, m.clone())),
+        Served::Mismatch(m) => Err(fail(if m.contains("backoff") { "backoff-not-honoured" } else { "re-registration-differs" }, class, m.clone())),
         Served::Recovered(_, a) | Served::GaveUp(a) => {
             if *a != expect_attempts {
                 Err(fail(
@@ -160,7 +185,7 @@ fn judge(served: &Served, p: &Params, j: usize, class: &str) -> Result<(), Fail>
                     format!(
                         "outage {j}: the fake server counted {a} re-registration attempt(s), expected {expect_attempts} (configured max {}, {} scripted failure(s) per outage{})",
                         p.max,
-                        p.fails,
+                        fails,
                         if p.fatal { ", first failure unrecoverable" } else { "" }
                     ),
                 ))
@@ -186,7 +211,7 @@ async fn publisher(fake: &mut FakeServer, client: &selium::Client, topic: &str, 
             let r = publ.send(format!("lost{j}")).await;
             (publ, r)
         });
-        let (served, early) = serve(fake, &orig, &Outage { fails: p.fails, code }, &mut op).await;
+        let (served, early) = serve(fake, &orig, &Outage { fails: p.fails[j - 1], code, backoff: p.backoff.clone() }, &mut op).await;
         let (pb, res) = match early {
             Some(x) => x,
             None => tokio::time::timeout(OP_BOUND, &mut op).await.map_err(|_| fail("hang", class, format!("outage {j}: send() neither completed nor failed within 20 s")))?.map_err(|e| fail("setup", "task", e.to_string()))?,
@@ -248,7 +273,7 @@ async fn subscriber(fake: &mut FakeServer, client: &selium::Client, topic: &str,
             let r = sub.next().await;
             (sub, r)
         });
-        let (served, early) = serve(fake, &orig, &Outage { fails: p.fails, code }, &mut op).await;
+        let (served, early) = serve(fake, &orig, &Outage { fails: p.fails[j - 1], code, backoff: p.backoff.clone() }, &mut op).await;
         judge(&served, p, j, class)?;
         match served {
             Served::Recovered(inc, _) => {
@@ -320,7 +345,7 @@ async fn requestor(fake: &mut FakeServer, client: &selium::Client, topic: &str, 
             let r = req.request(format!("q{j}")).await;
             (req, r)
         });
-        let (served, early) = serve(fake, &orig, &Outage { fails: p.fails, code }, &mut op).await;
+        let (served, early) = serve(fake, &orig, &Outage { fails: p.fails[j - 1], code, backoff: p.backoff.clone() }, &mut op).await;
         judge(&served, p, j, class)?;
         match served {
             Served::Recovered(inc, _) => {
@@ -396,7 +421,7 @@ async fn replier(fake: &mut FakeServer, client: &selium::Client, topic: &str, p:
     }
     for j in 1..=p.outages {
         fake.cut();
-        let (served, early) = serve(fake, &orig, &Outage { fails: p.fails, code }, &mut listen).await;
+        let (served, early) = serve(fake, &orig, &Outage { fails: p.fails[j - 1], code, backoff: p.backoff.clone() }, &mut listen).await;
         judge(&served, p, j, class)?;
         match served {
             Served::Recovered(inc, _) => {
@@ -438,21 +463,30 @@ fn cells(tier: &str) -> Vec<Value> {
     for kind in kinds {
         for &max in maxes {
             for &pre in pres {
+                let mut vectors: Vec<Vec<u32>> = Vec::new();
                 for outages in 1..=(max as usize + 2) {
                     for fails in 0..=max {
-                        // when every attempt fails the stream is dead after the first outage
+                        // when every attempt fails the stream is dead after that outage
                         if fails == max && outages > 1 {
                             continue;
                         }
-                        let backoffs: Vec<&str> = if thorough { vec!["constant", "linear", "exponential"] } else { vec![["constant", "linear", "exponential"][id % 3]] };
-                        for b in backoffs {
-                            v.push(json!({"cell": id, "kind": kind, "items_before": pre, "outages": outages, "failing_attempts_per_outage": fails, "failure": "retryable", "backoff": b, "max_attempts": max}));
-                            id += 1;
-                        }
+                        vectors.push(vec![fails; outages]);
+                    }
+                }
+                // exhaustion in a later outage, after earlier ones were survived
+                for earlier in 0..max {
+                    vectors.push(vec![earlier, max]);
+                    vectors.push(vec![earlier, earlier, max]);
+                }
+                for fv in vectors {
+                    let backoffs: Vec<&str> = if thorough { vec!["constant", "linear", "exponential"] } else { vec![["constant", "linear", "exponential"][id % 3]] };
+                    for b in backoffs {
+                        v.push(json!({"cell": id, "kind": kind, "items_before": pre, "outages": fv.len(), "failing_attempts_per_outage": fv, "failure": "retryable", "backoff": b, "max_attempts": max}));
+                        id += 1;
                     }
                 }
                 // unrecoverable answer to the first re-registration attempt
-                v.push(json!({"cell": id, "kind": kind, "items_before": pre, "outages": 1, "failing_attempts_per_outage": 1, "failure": "unrecoverable", "backoff": "constant", "max_attempts": max}));
+                v.push(json!({"cell": id, "kind": kind, "items_before": pre, "outages": 1, "failing_attempts_per_outage": [1], "failure": "unrecoverable", "backoff": "constant", "max_attempts": max}));
                 id += 1;
             }
         }
@@ -471,12 +505,12 @@ pub async fn run(tier: &str, replaying: bool) -> ! {
                 kind: c["kind"].as_str().unwrap().to_string(),
                 pre: c["items_before"].as_u64().unwrap() as usize,
                 outages: c["outages"].as_u64().unwrap() as usize,
-                fails: c["failing_attempts_per_outage"].as_u64().unwrap() as u32,
+                fails: c["failing_attempts_per_outage"].as_array().unwrap().iter().map(|x| x.as_u64().unwrap() as u32).collect(),
                 fatal: c["failure"].as_str() == Some("unrecoverable"),
                 backoff: c["backoff"].as_str().unwrap().to_string(),
                 max: c["max_attempts"].as_u64().unwrap() as u32,
             };
-            let nontrivial = p.outages >= 2 || p.fails >= 1;
+            let nontrivial = p.outages >= 2 || p.fails.iter().any(|f| *f >= 1);
             (nontrivial, cell(set, p).await)
         }
     })
